@@ -364,7 +364,7 @@ func init() {
 					return TTrue
 				}
 			}
-			un := m.P.prog.LookupMethod(e.T, nil, "Unwrap")
+			un := m.findMethod(e.T, "Unwrap")
 			if un == nil || un.Signature.Results().Len() != 1 {
 				break
 			}
@@ -380,7 +380,7 @@ func init() {
 		if e.T == nil {
 			return Iface{}
 		}
-		un := m.P.prog.LookupMethod(e.T, nil, "Unwrap")
+		un := m.findMethod(e.T, "Unwrap")
 		if un == nil || un.Signature.Results().Len() != 1 {
 			return Iface{}
 		}
@@ -416,6 +416,35 @@ func init() {
 		}
 		return StrConcat(out, CStr("\n"))
 	})
+
+	fprint := func(kind string) intrinsic {
+		return func(m *Machine, fr *frame, a []Value) Value {
+			w := a[0].(Iface)
+			var out Str
+			switch kind {
+			case "f":
+				out = m.sprintf(fr, a[1].(Str), a[2].([]Value))
+			default:
+				for i, v := range a[1].([]Value) {
+					if i > 0 && kind == "ln" {
+						out = StrConcat(out, CStr(" "))
+					}
+					out = StrConcat(out, m.fmtValue(fr, 'v', v.(Iface), ""))
+				}
+				if kind == "ln" {
+					out = StrConcat(out, CStr("\n"))
+				}
+			}
+			if w.T == nil {
+				m.rtPanic("invalid memory address or nil pointer dereference (nil io.Writer)")
+			}
+			wr := m.findMethod(w.T, "Write")
+			return m.call(fr, token.NoPos, wr, []Value{w.V, sliceOfStr(out)})
+		}
+	}
+	reg("fmt.Fprintf", fprint("f"))
+	reg("fmt.Fprintln", fprint("ln"))
+	reg("fmt.Fprint", fprint(""))
 
 	// ---- sort ----
 	reg("sort.Slice", func(m *Machine, fr *frame, a []Value) Value {
@@ -600,7 +629,7 @@ func (m *Machine) fmtValue(fr *frame, verb byte, v Iface, spec string) Str {
 	// error / Stringer
 	if verb == 'v' || verb == 's' || verb == 'q' || verb == 'w' {
 		for _, mn := range []string{"Error", "String"} {
-			if fn := m.P.prog.LookupMethod(v.T, nil, mn); fn != nil && fn.Signature.Params().Len() == 0 && fn.Signature.Results().Len() == 1 {
+			if fn := m.findMethod(v.T, mn); fn != nil && fn.Signature.Params().Len() == 0 && fn.Signature.Results().Len() == 1 {
 				if b := basicOf(fn.Signature.Results().At(0).Type()); b != nil && b.Kind() == types.String {
 					if p, ok := v.V.(*Value); ok && p == nil {
 						return CStr("<nil>")
